@@ -69,7 +69,7 @@ def run(ctx):
                           {"engine": "VSE", "root": n, "input": None}))
     roots_s = [n for n in roots_s if n not in missing]
     roots_o = [n for n in roots_o if n not in missing]
-    opts = {"cap_s": 900 if ctx.thorough else 120}
+    opts = {"cap_s": 900 if ctx.thorough else 120, "max_base_n1_limit": 250}
     a1, v1 = explore_roots(ctx, judge, roots_s, ks_min, ks_max, opts)
     a2, v2 = explore_roots(ctx, judge, roots_o, ke_min, ke_max, opts)
     res.merge_violations(v1 + v2)
@@ -88,7 +88,8 @@ def run(ctx):
         "outcome_classes": {k: a1["outcomes"].get(k, 0) + a2["outcomes"].get(k, 0)
                             for k in set(a1["outcomes"]) | set(a2["outcomes"])},
         "largest_root": list(max(a1["per_root_max"], a2["per_root_max"], key=lambda x: x[1])),
-        "capped_roots": capped,
+        "max_base_bound_reduced_to_1": [r[0] for r in a1["reduced"] + a2["reduced"]],
+        "capped_roots": capped, "slowest_roots": a1["slowest"][:5] + a2["slowest"][:3],
         "exhaustive": not capped,
         "samples": a1["samples"] + a2["samples"][:2],
     }
